@@ -54,11 +54,39 @@ def run(ctx):
         if not m2:
             raise vlib.Infra("binding self-test: corrupted persistence trace accepted")
         break
+    parallel(ctx, quick, behs)
     ctx.assumptions += [
         "crashes are in-process: the state object is dropped and the bbolt file closed and re-opened at the decorator's crash points "
         "(before / after the backing-store write, between operations); bbolt's own transaction atomicity is trusted",
         "six marshaler stackings (protobuf, encryption, zstd below/above threshold, both nestings)",
     ]
+
+
+def parallel(ctx, quick, behs):
+    """Several clients writing at once, each to its own namespace, through one bbolt file and one marshaler stacking (real
+    threads); every client's history is sequential in its namespace; after closing and re-opening the file every namespace must
+    hold what its client was acknowledged (TracePersist, par lines)."""
+    sub = behs[:48 if quick else 960]
+    inp = os.path.join(ctx.scratch, "parbehs.json")
+    json.dump(sub, open(inp, "w"))
+    binary = vlib.go_build_test(ctx, "c10")
+    out = os.path.join(ctx.scratch, "parallel.ndjson")
+    vlib.go_run(ctx, binary, "TestParallelPersist", {"VERIF_IN": inp, "VERIF_OUT": out}, timeout=3000)
+    recs = vlib.read_ndjson(out)
+    traces = vlib.split_traces(recs)
+    mism, consumed, r = vlib.validate(ctx, "TracePersist", "TracePersist.cfg", out, timeout=3000, name="val-parallel")
+    if consumed != len(recs):
+        raise vlib.Infra("TracePersist consumed %s of %d\n%s" % (consumed, len(recs), r.out[-2500:]))
+    details = [x for x in r.out.splitlines() if x.startswith('<<"DETAIL"')]
+    ctx.cov["traces_validated_against_impl"] += len(traces)
+    ctx.cov["parallel_client_histories"] = len(traces)
+    for i, line in enumerate(mism):
+        m = re.match(r'<<"MISMATCH", "([^"]*)", (\d+), "([^"]*)">>', line)
+        tid, lno, what = m.group(1), int(m.group(2)), m.group(3)
+        ctx.violation("parallel-clients/%s" % what,
+                      "%s at line %d (marshaler %s, clients writing to separate namespaces at the same time): %s" % (
+                          what, lno, tid.split("#")[0], (details[i] if i < len(details) else "")[:700]),
+                      {"tid": tid, "line": lno, "trace": [t for t in traces if t[0] == tid][0][1][:lno + 1]})
 
 
 if __name__ == "__main__":
